@@ -15,6 +15,8 @@ from __future__ import annotations
 
 import math
 
+import itertools
+
 import numpy as np
 
 from .. import refmodel as R
@@ -146,6 +148,7 @@ def _tag(spec):
     return (f"{spec['r']}x{spec['c']} bits={int(spec['bits']):#x} kind={spec.get('mk', 'L')} unit_length={spec['ul']} "
             f"node_values={bool(spec.get('vals'))}" + (f" start={spec['start']} end={spec['end']}" if spec.get("mk") == "T" else "")
             + (f" solution={spec['sol']}" if spec.get("mk") == "S" else "")
+            + (f" call sequence {list(spec['ops']) + ['plot']} on one MazePlot" if spec.get("ops") is not None else "")
             + (f" add_true_path={spec['true']}" if spec.get("true") else "") + (f" add_predicted_path x{len(spec['pred'])}={spec['pred']}" if spec.get("pred") else ""))
 
 
@@ -193,6 +196,11 @@ def run_plot(spec, res):
     rd = dict(spec, kind="plot")
     cls = _cls(spec)
     vcls = "values" if spec.get("vals") else "novalues"
+    if spec.get("ops") is not None:
+        has_vals = any(o.startswith("vals") for o in spec["ops"])
+        seq = "sequence:" + ">".join(spec["ops"])
+        cls = f"{'values' if has_vals else 'novalues'}|{seq}"
+        vcls = ("values|" if has_vals else "novalues|") + seq
     m = build_maze(spec)
     cl = m.connection_list
     adj = R.adjacency(cl)
@@ -201,17 +209,44 @@ def run_plot(spec, res):
     try:
         try:
             mp = MazePlot(m, unit_length=ul)
-            if vals is not None:
-                mp.add_node_values(vals.copy())
-            if spec.get("true"):
-                mp.add_true_path(_path_arg(spec["true"], as_array))
-            preds = spec.get("pred") or []
-            if len(preds) >= 2 and spec.get("multi"):
-                mp.add_multiple_paths([_path_arg(p, as_array) for p in preds])
+            if spec.get("ops") is not None:
+                # one live MazePlot driven through a sequence of configuration calls and intermediate plots; the LAST plot must show the
+                # configuration accumulated so far, exactly as a plot object that was configured once would
+                vals, true_given, preds = None, None, []
+                for op in list(spec["ops"]) + ["plot"]:
+                    if op == "plot":
+                        if getattr(mp, "fig", None) is not None:
+                            plt.close(mp.fig)
+                        mp.plot()
+                    elif op == "vals":
+                        vals = node_values(r, c)
+                        mp.add_node_values(vals.copy())
+                    elif op == "vals2":
+                        vals = node_values(r, c)[::-1, ::-1].copy() + 0.25
+                        mp.add_node_values(vals.copy())
+                    elif op == "true":
+                        true_given = spec["true"]
+                        mp.add_true_path(_path_arg(true_given, as_array))
+                    elif op in ("pred0", "pred1"):
+                        preds.append(spec["pred"][int(op[-1])])
+                        mp.add_predicted_path(_path_arg(preds[-1], as_array))
+                    elif op == "ascii":
+                        mp.to_ascii()
+                    else:
+                        raise KeyError(op)
+                spec = dict(spec, true=true_given, pred=preds)
             else:
-                for p in preds:
-                    mp.add_predicted_path(_path_arg(p, as_array))
-            mp.plot()
+                if vals is not None:
+                    mp.add_node_values(vals.copy())
+                if spec.get("true"):
+                    mp.add_true_path(_path_arg(spec["true"], as_array))
+                preds = spec.get("pred") or []
+                if len(preds) >= 2 and spec.get("multi"):
+                    mp.add_multiple_paths([_path_arg(p, as_array) for p in preds])
+                else:
+                    for p in preds:
+                        mp.add_predicted_path(_path_arg(p, as_array))
+                mp.plot()
             fig, ax = mp.fig, mp.ax
         except Exception as e:
             res.fail(f"C20|plot|{cls}|{spec.get('mk', 'L')}|raises|{type(e).__name__}", f"plotting raised {type(e).__name__}: {str(e)[:200]} on {_tag(spec)}", rd)
@@ -307,7 +342,7 @@ def run_plot(spec, res):
         res.count("plots")
         res.count("path_artists_checked", len(want_lines) + len(want_quivers))
         res.nontrivial(("plot", r, c, int(spec["bits"]), ul, bool(spec.get("vals")), spec.get("mk", "L"), repr(spec.get("start")), repr(spec.get("end")),
-                        repr(spec.get("sol")), repr(spec.get("true")), repr(spec.get("pred")), as_array))
+                        repr(spec.get("sol")), repr(spec.get("true")), repr(spec.get("pred")), as_array, repr(spec.get("ops"))))
     finally:
         if fig is not None:
             plt.close(fig)
@@ -383,6 +418,31 @@ def plot_cases(tier):
                 if gi == 0:
                     C.append(dict(r=r, c=c, bits=bits, ul=ul, vals=bool(k % 5 == 0), mk="L", pred=[a], as_array=bool((k + 1) % 2)))
                     C.append(dict(r=r, c=c, bits=bits, ul=ul, vals=False, mk="L", true=d))
+    # 6. solved mazes whose STORED solution is not what a solver would return: every simple path of every cyclic 2x2 / some 3x3 graphs
+    for (r, c), graphs in (((2, 2), [15, 7, 11, 13, 14]), ((3, 3), [R.n_graphs(3, 3) - 1] if quick else [R.n_graphs(3, 3) - 1, (R.n_graphs(3, 3) - 1) ^ 5])):
+        for gi, bits in enumerate(graphs):
+            adj = R.adjacency(R.graph_from_bits(r, c, bits))
+            sols = []
+            for s0 in R.cells(r, c):
+                dist = R.bfs_dist(adj, s0)
+                sols += [p for p in R.simple_paths(adj, s0, r * c) if len(p) >= 2 and len(p) - 1 != dist[p[-1]]]
+            if (r, c) == (3, 3):
+                sols = sols[:: (61 if quick else 7)]
+            for k, p in enumerate(sols):
+                C.append(dict(r=r, c=c, bits=bits, ul=ULS[k % 4], vals=False, mk="S", sol=[list(v) for v in p], nonshortest=True))
+    # 7. call sequences on one MazePlot: every sequence of <= 3 calls over {plot, vals, vals2, true, pred0, pred1, ascii}, then plot
+    OPS = ["plot", "vals", "vals2", "true", "pred0", "pred1", "ascii"]
+    seq_mazes = [dict(r=2, c=2, bits=15, mk="L", true=[[0, 0], [0, 1], [1, 1]], pred=[[[1, 0], [0, 0]], [[1, 1], [1, 0], [0, 0], [0, 1]]]),
+                 dict(r=3, c=2, bits=R.trees(3, 2)[3], mk="T", start=[0, 0], end=[2, 1], true=[[2, 1], [1, 1]], pred=[[[0, 0], [1, 0]], [[2, 0], [2, 1]]])]
+    depth = 3
+    for mi, base in enumerate(seq_mazes):
+        for d in range(1, depth + 1):
+            for q in itertools.product(OPS, repeat=d):
+                if "plot" not in q and "ascii" not in q:
+                    continue  # no intermediate observation: configured once, plotted once (families 1-6)
+                if quick and mi == 1 and d == 3 and (hash(q) if False else sum(OPS.index(o) * 7 ** i for i, o in enumerate(q))) % 3 != 0:
+                    continue
+                C.append(dict(base, ul=(5, 14, 3)[d % 3], ops=list(q), as_array=bool(d % 2)))
     for x in C:
         x["bits"] = str(x["bits"])
     return C
